@@ -53,7 +53,8 @@ theorem stage_gateway (h : Fam c A B T q fs) (down : Downstream) (i : String) (a
       = .ok ⟨some [(q, .obj (a ++ b))], [], calls⟩ := by
   obtain ⟨calls, hex⟩ := stage_execute h down i a b hq1 hq2 hqne hine hA hB hb0 hbnd hdisj
   refine ⟨calls, ?_⟩
-  unfold gateway plan
+  rw [gateway_noVarDefs _ _ _ _ _ _ rfl]
+  unfold gatewayCore gatewayCoreWith plan
   simp only [stage_sanitize h, bind, Except.bind, stage_plan h]
   have : rootStep A B T q fs = .mk A "Query" [Qown T q fs] [] (stepsB B T q (fsB fs)) := rfl
   rw [← this, hex]
